@@ -156,6 +156,17 @@ def build(inst, rnd=None):
         return ret
     if inst.get('load_on', 'last') == 'last':
         objs[-1].external_torque = external_torque
+    # further external torques on gears that are NOT the last element (the library lets such a load REPLACE what comes up from
+    # downstream: the element's load torque is then its own function's value)
+    def _extra(ld2):
+        def f(time, angular_position, angular_speed):
+            t = time.to('sec').value
+            th = angular_position.to('rad').value
+            w = angular_speed.to('rad/s').value
+            return Torque(ld2['c0'] + ld2['c1'] * w + ld2['c2'] * th + ld2['c3'] * t, 'Nm').to(tq_unit)
+        return f
+    for i_str, ldp in (inst.get('extra_loads') or {}).items():
+        objs[int(i_str)].external_torque = _extra({k: float(Fraction(v)) for k, v in ldp.items()})
     pt = Powertrain(objs[0])
     pt_holder.append(pt)
     # a SECOND layout declared from shared elements after this powertrain was assembled: the driver of element i is mated with
@@ -505,6 +516,7 @@ def execute(tid, inst, rnd=None):
             'load': {k: rstr(float(Fraction(v))) for k, v in inst['load'].items()},
             'ctrls': [[_rule_desc(r, b) for r in rules] for rules in inst.get('ctrls', [])],
             'stops': [dict(s, thr=str(s['thr'])) for s in inst.get('stops', [])],
+            'extra_loads': [{'el': int(i) + 1, 'ld': {k: rstr(float(Fraction(v))) for k, v in ldp.items()}} for i, ldp in sorted((inst.get('extra_loads') or {}).items())],
             'ops': recs, 'epochs': epochs, 'elems_by_epoch': elems_by_epoch, 'units_used': sorted(f'{k}:{u}' for k, u in q.used)}
 
 
